@@ -222,13 +222,14 @@ Definition vis_flags_weights (cps : list corrprod) (scaled : bool) (vv : option 
 
 (* ------------------------------------------------------------------ excision (visdatav4.py) *)
 (* numpy / Python round: half to even *)
-Definition rhe (q : Qc) : Z :=
+Definition rheQ (q : Q) : Z :=
   let f := Qfloor q in
-  match (q - Q2Qc (inject_Z f) ?= Q2Qc (1 # 2))%Qc with
+  match Qcompare (q - inject_Z f) (1 # 2) with
   | Lt => f
   | Gt => (f + 1)%Z
   | Eq => if Z.even f then f else (f + 1)%Z
   end.
+Definition rhe (q : Qc) : Z := rheQ q.
 Definition ZQc (z : Z) : Qc := Q2Qc (inject_Z z).
 
 (* cbf_dumps_per_sdp_dump = round(dump_period / cbf_dump_period); accumulations_per_dump = n_accs * that *)
